@@ -20,6 +20,7 @@ REQUIRED_THEOREMS = [
     'dictToPaths_pathsToDict_dict_value_witness', 'dictToPaths_pathsToDict_distinct_heads_partial',
     'dictToPaths_pathsToDict_shared_head_regroups', 'dictToPaths_pathsToDict_perm',
     'dictToPaths_pathsToDict_prefix_witness', 'hierarchyDepth_pathsToDict_perm',
+    'updateIn_applies_f_to_getIn',
 ]
 ANCHORS = [
     ('vivarium/core/store.py', ['Store.add_node']),
@@ -309,7 +310,7 @@ def run_impl(case):
                     fails.append('update_in: addressed entry not updated')
                 _frame(T, d0, d3, p, fails, 'update_in')
                 # … and `f` is applied to what `get_in` reads there (`{}` for an entry that does not exist yet):
-                # C17.getIn_updateIn on the implementation, with an `f` that looks at its argument
+                # C17.updateIn_applies_f_to_getIn on the implementation, with an `f` that looks at its argument
                 seen = []
                 try:
                     T.update_in(copy.deepcopy(d0), p, lambda cur: (seen.append(copy.deepcopy(cur)), 'NEW')[1])
